@@ -261,6 +261,15 @@ def fn_args_default_rule(ctx, rid):
     vals = [norm(n.ast.value) for n in defs]
     if any(("runner._fn_args" in v or "runner.fn_args" in v or "farmer.fn_args" in v or "farmer._fn_args" in v) for v in vals):
         rr.ok("sow_cases: with a runner attached an omitted fn_args is taken from the runner (%s)" % "; ".join(vals))
+        # ... and a given fn_args is not replaced by the runner's
+        fl2 = Flow(g, {"fn_args": NOTNONE, "self.runner": NOTNONE, "self.farmer": NOTNONE, "batchsize": NONE, "num_batches": NONE}).run()
+        over = [n for n in g.nodes if n.id in fl2.visited and n.kind == "stmt" and isinstance(n.ast, ast.Assign) and norm(n.ast.targets[0]) == "fn_args"
+                and any(w in norm(n.ast.value) for w in ("runner._fn_args", "runner.fn_args", "farmer.fn_args", "farmer._fn_args"))]
+        if over:
+            rr.bad(ctx.finding(rid, sc, over[0].ast, "sow_cases replaces a *given* fn_args by the runner's declared order (`%s` runs although fn_args was passed): tuple cases are bound to other parameters than the caller named" % norm(over[0].ast),
+                               construct="fn-args-given-overridden"), "given fn_args kept")
+        else:
+            rr.ok("sow_cases: a given fn_args is used as given")
     elif all(v.startswith("parse_fn_args(") and "_fn" in v for v in vals):
         rr.bad(ctx.finding(rid, sc, defs[0].ast, "with a runner attached sow_cases resolves an omitted fn_args from the function's signature (`%s`), while Runner.run_cases uses the runner's declared order: tuple cases of a runner "
                            "declared with another argument order are bound to different parameters than in the direct run" % vals[0], construct="fn-args-default"), "fn_args default")
@@ -360,6 +369,10 @@ def sow_constants_rule(ctx, rid):
             if not fresh and ("runner._constants" in norm(dv_) or "runner._resources" in norm(dv_) or "runner._attrs" in norm(dv_)):
                 rr.bad(ctx.finding(rid, rrn, st_, "`%s` writes into `%s`, which is the runner's own stored mapping (`%s` hands a dict back unchanged): the constants of this one sow are left in the runner, so its next run or crop computes and labels with them"
                                    % (norm(st_)[:60], recv, norm(dv_)[:50]), construct="runner-mapping-mutated"), "reap_runner leaves the runner's mappings alone")
+    for st_ in ast.walk(rrn.node):
+        if isinstance(st_, ast.Assign) and isinstance(st_.value, ast.BoolOp) and isinstance(st_.value.op, ast.And) and "'constants'" in norm(st_.value) and isinstance(st_.value.values[-1], (ast.Dict, ast.Call)) \
+                and norm(st_.value.values[-1]) in ("{}", "dict()"):
+            rr.bad(ctx.finding(rid, rrn, st_, "`%s`: `and` with an empty mapping is empty (or None) whatever was persisted, so the constants given at sowing never label the reaped data" % norm(st_)[:70], construct="sown-constants-and-empty"), "sown constants default")
     if "constants" in keys:
         if "runner._constants" in expanded and ("load_info" in expanded or "settings" in expanded) and "'constants'" in expanded:
             rr.ok("reap_runner labels with the runner's constants overridden by the crop's persisted ones")
